@@ -209,6 +209,9 @@ func cmdCheck(args []string) int {
 				"reason":     "the verification-condition generator could not process this function (contract no longer binds, or construct outside the verified subset): " + e}})
 		}
 	}
+	for _, e := range u.loadErrs {
+		viols = append(viols, violation{name: "load#objinv", detail: map[string]interface{}{"obligation": "load#objinv", "reason": e}})
+	}
 	for _, b := range bindingFailures {
 		viols = append(viols, violation{name: b + "#binding", detail: map[string]interface{}{
 			"obligation": b + "#binding", "reason": "contract names a function that no longer exists with a body; the proof no longer applies"}})
